@@ -18,7 +18,8 @@ CONSTANTS
   MaxStops = 0
   MaxExpire = 1
   IgnoredStarts = FALSE
-  LateRace = FALSE
+  RaceFinder = FALSE
+  RaceBuffer = FALSE
 VIEW view
 ACTION_CONSTRAINT GenLog
 CHECK_DEADLOCK FALSE
